@@ -14,6 +14,10 @@ def body(ctx):
     for group in ("c13", "c13r"):
         outdir, meta = ctx.harness(group, n if group == "c13" else n // 2)
         ctx.correspond(outdir, nontrivial_tag=lambda t: "diagnostics" in t, shrink_group=group)
+    # the three Roblox constructor lints against their model (Selene/Lints/Roblox.lean, part of `allDiags`): numerals in every
+    # spelling around the f32 rounding boundaries, negated / hexadecimal / parenthesised arguments, variables named `inf` / `nan`
+    outdir, meta = ctx.harness("roblox", 250 if ctx.tier == "quick" else 6000)
+    ctx.correspond(outdir, nontrivial_tag=lambda t: "silent" not in t)
     ctx.notes.append(f"twins discarded because the rewrite changed the token sequence: {ctx.stats.get('twin_changed_the_token_sequence', 0)}; twins that did not parse: {ctx.stats.get('twin_does_not_parse', 0)}")
 
 
